@@ -1306,7 +1306,12 @@ class Converter:
             # We first need to intercept a break instruction in test block.
             # It must be something like `if <condition_name>: break`.
             # This instruction must be the last of the loop body.
-            if isinstance(s, ast.If) and len(s.body) == 1 and isinstance(s.body[0], ast.Break):
+            if (
+                isinstance(s, ast.If)
+                and len(s.body) == 1
+                and isinstance(s.body[0], ast.Break)
+                and not s.orelse
+            ):
                 if not isinstance(s.test, ast.Name):
                     self._fail(
                         s,
